@@ -124,7 +124,7 @@ def run(ctx):
                      'twin equality at 1e-9 relative, unit quaternions at 1e-9 (float64)',
                      'rebound margins are the property\'s: +-0.02 positional, -0.02..+0.2 spring']
   os.makedirs(tlc.WORK, exist_ok=True)
-  models = [c['model'] for c in c01.relational_cases(ctx, 'c06-models', 3, 10 if q else 200, seed_off=61)]
+  models = [c['model'] for c in c01.relational_cases(ctx, 'c06-models', 3, 10 if q else 80, seed_off=61)]
   twin = []
   steps = 5
   for m in models:
@@ -160,7 +160,7 @@ def run(ctx):
                      'lim_idx': lim_idx, 'lo': lo, 'hi': hi})
   # near-touching but separated primitives approaching the ground fast: contacts are detected at the pre-step pose, so
   # for the spring and generalized pipelines a separated state steps exactly like the collision-free twin
-  for _ in range(3 if q else 40):
+  for _ in range(3 if q else 24):
     shape = r.choice(['sphere', 'box', 'capsule'])
     size, dens, gap, v = r.uniform(0.05, 0.3), r.uniform(200, 3000), r.uniform(0.0005, 0.003), r.uniform(0.5, 3.0)
     xa, _ = scene(shape, size, dens, gap, dt=0.002)
@@ -171,7 +171,7 @@ def run(ctx):
       twin.append({'what': 'separated', 'xml_a': xa, 'xml_b': xb, 'pipe': pipe, 'q': None, 'qd': [0, 0, -v, 0, 0, 0], 'steps': 1,
                    'acts': None, 'before_only': True})
   # floating primitives spinning fast relative to the step (|w| dt up to 0.8): rotations stay unit quaternions
-  for _ in range(2 if q else 20):
+  for _ in range(2 if q else 12):
     shape = r.choice(['sphere', 'box', 'capsule'])
     size, dens = r.uniform(0.05, 0.3), r.uniform(200, 3000)
     xa, _ = scene(shape, size, dens, 2.0, dt=0.002)
@@ -194,7 +194,7 @@ def run(ctx):
     info.append((case, out, out['guard_before'] and out['guard_after']))
   # ---- push-only
   push = []
-  for _ in range(4 if q else 60):
+  for _ in range(4 if q else 30):
     shape = r.choice(['sphere', 'box', 'capsule'])
     size, dens, depth = r.uniform(0.05, 0.3), r.uniform(200, 3000), r.uniform(0.002, 0.02)
     qu = np.array([r.gauss(0, 1) for _ in range(4)])
@@ -206,7 +206,7 @@ def run(ctx):
         push.append({'what': 'push', 'xml': xml, 'pipe': pipe, 'q': None, 'qd': None, 'steps': 1, 'acts': None, 'rest': rest})
   # ---- drops and rebounds
   drops = []
-  for _ in range(3 if q else 40):
+  for _ in range(3 if q else 20):
     shape = r.choice(['sphere', 'box', 'capsule'])
     size, dens, h = r.uniform(0.05, 0.3), r.uniform(200, 3000), r.uniform(0.0, 0.5)
     v = variant(r, shape)
@@ -214,7 +214,7 @@ def run(ctx):
     for pipe in PIPES:
       drops.append({'what': 'drop', 'xml': xml, 'pipe': pipe, 'q': None, 'qd': None, 'steps': 500 if q else 1500, 'acts': None,
                     'rest': rest, 'shape': shape, 'body': 1 if v.get('second') else 0})
-  for i in range(3 if q else 40):
+  for i in range(3 if q else 24):
     size, e, h = r.uniform(0.05, 0.3), r.uniform(0.0, 0.9), r.uniform(0.2, 1.0)
     if i % 2 == 0:
       # grazing impact: the last contact-free step ends a few micrometres above the plane (free fall under semi-implicit
